@@ -395,7 +395,9 @@ func (c *Ctx) ownerRoots(f *ssa.Function, seen map[*ssa.Function]bool) []string 
 		return nil
 	}
 	seen[f] = true
-	if f.Object() == nil || f.Object().Exported() || f.Signature.Recv() != nil {
+	// exported functions and methods are entry points; an unexported method is a helper like an unexported function
+	// (with no static call site it stays its own root, which is the conservative answer for interface dispatch)
+	if f.Object() == nil || f.Object().Exported() {
 		return []string{f.Name()}
 	}
 	sites := c.callSitesOf(f)
@@ -831,7 +833,7 @@ func checkC16(c *Ctx, r *Report) {
 		r.Decide([]string{"C16.nil-safe:", "C16.unbind:", "C16.once-guard:", "C16.destroy:", "C16.guards:"}, nil, "Refresh/Destroy/registration/logging evaluated over operation sequences")
 	}
 	bind := c.bindingFields()
-	r.Floor("binding fields", len(bind), 2)
+	r.Floor("binding fields", len(bind), 1)
 	// ---- C16.nil-safe
 	nReads := 0
 	for _, f := range sortedFuncs(ro.HotPath) {
